@@ -69,24 +69,23 @@ Theorem keys_match_is_sql_eq :
 Proof. exact keys_match_is_sql_eq_l. Qed.
 
 (* the hand-written two-table path of Database::query (repaired code) returns exactly the rows SQL
-   defines, for all tables, join types, ON / WHERE conditions, select lists (SELECT * included) and both
-   naming styles outside the one open finding class 3 (cls_sql = 0), given that predicate evaluation
-   agrees with the reference on the rows it sees (C14) *)
+   defines, for ALL tables, join types, ON / WHERE conditions, select lists (SELECT * included) and both
+   naming styles -- no finding class is excluded -- given that predicate evaluation agrees with the
+   reference on the rows it sees (C14) *)
 Theorem hw_join_correct :
-  forall jt lw rw qual on w sel (L R : table) t s, let q := mkq [(lw, L); (rw, R)] [(jt, on)] w sel in cls_sql q qual = 0 -> Forall (fun l => length l = lw) L -> (forall e, opt_on jt on = Some e -> pred_ok e (pairs_of L R)) -> (forall e, w = Some e -> pred_ok e (join_rows jt lw rw (pair_tt (opt_on jt on)) L R)) -> hw_model q qual = HRows t -> query_spec q = Some s -> t = s.
+  forall jt lw rw qual on w sel (L R : table) t s, let q := mkq [(lw, L); (rw, R)] [(jt, on)] w sel in Forall (fun l => length l = lw) L -> (forall e, opt_on jt on = Some e -> pred_ok e (pairs_of L R)) -> (forall e, w = Some e -> pred_ok e (join_rows jt lw rw (pair_tt (opt_on jt on)) L R)) -> hw_model q qual = HRows t -> query_spec q = Some s -> t = s.
 Proof. exact hw2_correct_l. Qed.
 
-(* the finding classes repaired in /repo (1, 2, 3-residual, 4, 8, 10): on their former witnesses the models of
-   the repaired code return what the implementation now returns, and that is the SQL join *)
+(* the finding classes repaired in /repo (1, 2, 3, 4, 8, 10): on their former witnesses the models of the
+   repaired code return what the implementation now returns, and that is the SQL join *)
 Theorem repaired_classes_regression :
-  repaired w1 = true /\ repaired w2 = true /\ repaired w3 = true /\ repaired w4 = true /\ repaired w8 = true /\ repaired w10 = true.
+  repaired w1 = true /\ repaired w2 = true /\ repaired w3 = true /\ repaired w4 = true /\ repaired w8 = true /\ repaired w10 = true /\ repaired w3s = true.
 Proof. exact repaired_classes_regression_l. Qed.
 
-(* the two-table class still open (3: bare names, equality between two columns of one input): the
-   faithful model returns what the implementation returns, and it is not what SQL defines *)
-Theorem open_class_refuted :
-  refuted w3s 3 = true /\ (match w3s with Sql q _ _ _ => query_spec q | _ => None end) = Some [[VInt 1; VInt 1]; [VInt 2; VNull]; [VInt 3; VNull]].
-Proof. exact open_class_refuted_l. Qed.
+(* no finding class is left for two-table joins (the open classes 5, 6, 7 concern three or more tables) *)
+Theorem two_table_classes_closed :
+  forall t1 t2 j w sel qual, cls_sql (mkq [t1; t2] [j] w sel) qual = 0.
+Proof. exact two_table_classes_closed_l. Qed.
 
 (* the hash hypothesis of grace_is_sql_join on the former class-1 witness: Int 1 and Float 1.0 match and
    (since dff11cf, hash_join_key) carry the same DefaultHasher value *)
@@ -112,7 +111,7 @@ Example c17_witness :
   | _ => false
   end = true /\
   let q := mkq [(3%nat, ta3); (3%nat, tb3)] [(JFull, Some (ECmp CEq (ECol 1) (ECol 4)))] None (Some [0%nat; 3%nat]) in
-  cls_sql q false = 0 /\ hw_model q false = HRows [[VInt 1; VInt 1]; [VInt 1; VInt 2]; [VInt 2; VInt 1]; [VInt 2; VInt 2]; [VInt 3; VNull]] /\
+  hw_model q false = HRows [[VInt 1; VInt 1]; [VInt 1; VInt 2]; [VInt 2; VInt 1]; [VInt 2; VInt 2]; [VInt 3; VNull]] /\
   query_spec q = Some [[VInt 1; VInt 1]; [VInt 1; VInt 2]; [VInt 2; VInt 1]; [VInt 2; VInt 2]; [VInt 3; VNull]].
 Proof. vm_compute. repeat split. Qed.
 
@@ -126,9 +125,9 @@ Check spill_transparent : forall budget rows, forallb srow_ok rows = true -> spi
 Check grace_budget_independent : forall jt n lk rk lw rw budget sw (L R : list hrow), forallb srow_ok L = true -> forallb srow_ok R = true -> exec_model AGraceDyn jt n (Some budget) sw lk rk lw rw L R = exec_model AGraceDyn jt n None sw lk rk lw rw L R.
 Check grace_dyn_is_sql_join : forall jt n lk rk lw rw spill sw (L R : list hrow), 0 < n -> (forall l r : hrow, keys_match_static (fst l) (fst r) lk rk = true -> snd l = snd r) -> (spill = None \/ (forallb srow_ok L = true /\ forallb srow_ok R = true)) -> exists t, exec_model AGraceDyn jt n spill sw lk rk lw rw L R = XRows t /\ Permutation t (join_rows jt lw rw (fun l r => keys_match_static l r lk rk) (map fst L) (map fst R)).
 Check keys_match_is_sql_eq : forall lw lk rk (l r : row), length l = lw -> length lk = length rk -> Forall (fun i => (i < lw)%nat) lk -> forallb no_bool l = true -> forallb no_bool r = true -> on3 (keys_expr lw lk rk) l r <> None -> keys_match_static l r lk rk = on_tt (keys_expr lw lk rk) l r.
-Check hw_join_correct : forall jt lw rw qual on w sel (L R : table) t s, let q := mkq [(lw, L); (rw, R)] [(jt, on)] w sel in cls_sql q qual = 0 -> Forall (fun l => length l = lw) L -> (forall e, opt_on jt on = Some e -> pred_ok e (pairs_of L R)) -> (forall e, w = Some e -> pred_ok e (join_rows jt lw rw (pair_tt (opt_on jt on)) L R)) -> hw_model q qual = HRows t -> query_spec q = Some s -> t = s.
-Check repaired_classes_regression : repaired w1 = true /\ repaired w2 = true /\ repaired w3 = true /\ repaired w4 = true /\ repaired w8 = true /\ repaired w10 = true.
-Check open_class_refuted : refuted w3s 3 = true /\ (match w3s with Sql q _ _ _ => query_spec q | _ => None end) = Some [[VInt 1; VInt 1]; [VInt 2; VNull]; [VInt 3; VNull]].
+Check hw_join_correct : forall jt lw rw qual on w sel (L R : table) t s, let q := mkq [(lw, L); (rw, R)] [(jt, on)] w sel in Forall (fun l => length l = lw) L -> (forall e, opt_on jt on = Some e -> pred_ok e (pairs_of L R)) -> (forall e, w = Some e -> pred_ok e (join_rows jt lw rw (pair_tt (opt_on jt on)) L R)) -> hw_model q qual = HRows t -> query_spec q = Some s -> t = s.
+Check repaired_classes_regression : repaired w1 = true /\ repaired w2 = true /\ repaired w3 = true /\ repaired w4 = true /\ repaired w8 = true /\ repaired w10 = true /\ repaired w3s = true.
+Check two_table_classes_closed : forall t1 t2 j w sel qual, cls_sql (mkq [t1; t2] [j] w sel) qual = 0.
 Check hash_respects_on_witness : keys_match_static [VInt 1; VInt 10] [VFloat 4607182418800017408; VInt 100] [0%nat] [0%nat] = true /\ (match w1 with Exec _ _ _ _ _ _ _ _ _ L R _ => forallb (fun l => forallb (fun r => implb (keys_match_static (fst l) (fst r) [0%nat] [0%nat]) (snd l =? snd r)) R) L | _ => false end) = true.
 Check bag_eqb_is_permutation : forall a b, bag_eqb a b = true <-> Permutation a b.
 
@@ -144,6 +143,6 @@ Print Assumptions grace_dyn_is_sql_join.
 Print Assumptions keys_match_is_sql_eq.
 Print Assumptions hw_join_correct.
 Print Assumptions repaired_classes_regression.
-Print Assumptions open_class_refuted.
+Print Assumptions two_table_classes_closed.
 Print Assumptions hash_respects_on_witness.
 Print Assumptions bag_eqb_is_permutation.
